@@ -432,6 +432,10 @@ def known(case, out, what):
 
 class C10(diffcheck.DiffProp):
     pid = "C10"
+    manifest = dict(
+        text="Unbounded Coq theorems (structural induction over every nesting of Slice/Uninit views, every root kind/length/capacity, every fill list; induction over member lists for Vec<T> vectored buffers) about an executable model of compio-buf's views; the model is tied to the code on every run by an exact differential correspondence (6 root kinds, 3 container kinds, VectoredSlice, VectoredBufIter) plus an independent contract oracle.",
+        note="Trusted: Coq kernel; ExtrOcamlBasic extraction + OCaml driver; harness c10.rs (enum nesting of the real view types, offsets as pointer differences to the root base); exact with_capacity of Vec/BytesMut/SmallVec (asserted by the harness); set_len beyond capacity = Vec abort under debug assertions, SmallVec silent UB trapped by the harness. Vectored theorems cover the unsliced Vec<T> container and the first VectoredBufIter fill; sliced vectored views, tuple containers and later iterator positions are covered by the correspondence and by refutation witnesses only. BufferRef (pool buffers) is not built here (see C07). The full-strength statements are false in 7 classes (known findings, each with a vm_compute witness). No axioms. No release-profile pass: out-of-contract set_len is silent UB in release.",
+        technique="Coq proof (structural induction over view nestings and fill lists) + extracted-model differential correspondence")
     prop_file = "prop/C10.v"
     model_name = "c10"
     harness_bin = "c10"
@@ -472,49 +476,6 @@ class C10(diffcheck.DiffProp):
 
     def known(self, case, out, what):
         return known(case, out, what)
-
-    def run(self, tier, seed, replay=None):
-        """diffcheck does not compare model and implementation on cases the oracle rejects;
-        the known-finding classes are the ones the refutation lemmas speak about, so compare
-        them here as well (adds strictness only)"""
-        rc = diffcheck.run(self, tier, seed, replay)
-        cpath = os.path.join(vlib.OUT, self.pid, "cases_%s.txt" % tier)
-        exe = os.path.join(vlib.TARGET, "debug", self.harness_bin)
-        if not (os.path.exists(cpath) and os.path.exists(exe)):
-            return rc
-        cases = [[int(t) for t in l.split()] for l in open(cpath)]
-        impl, _ = vlib.run_impl(exe, cpath, len(cases))
-        try:
-            model = vlib.run_model(self.model_name, cpath)
-        except RuntimeError:
-            return rc
-        bad = []
-        n = 0
-        for c, io, mo in zip(cases, impl, model):
-            if oracle(c, io) is not None:
-                n += 1
-                if io != mo:
-                    bad.append({"case": c, "impl": io, "model": mo})
-        epath = os.path.join(vlib.ROOT, "evidence", self.pid + ".json")
-        if os.path.exists(epath):
-            ev = json.load(open(epath))
-            ev["coverage"]["known_class_cases_also_compared_with_model"] = n
-            ev["coverage"]["known_class_disagreements"] = len(bad)
-            if bad:
-                ev["violations"] = ev.get("violations", 0) + 1
-            vlib.write_json(epath, ev)
-        if bad:
-            path = os.path.join(vlib.OUT, self.pid, "correspondence_known_%s.json" % tier)
-            vlib.write_json(path, {
-                "property": self.pid, "kind": "correspondence",
-                "what": "model and implementation disagree on %d case(s) of a known-finding class" % len(bad),
-                "case": bad[0]["case"], "impl_output": bad[0]["impl"], "model_output": bad[0]["model"],
-                "more": bad[1:6], "replay_cmd": "./check %s --replay %s" % (self.pid, path)})
-            vlib.log("VIOLATION property=%s replay=%s no-failing-input-found" % (self.pid, path))
-            return 1
-        vlib.log("%s: %d oracle-rejected (known-class) cases also compared with the model: 0 disagreements"
-                 % (self.pid, n))
-        return rc
 
 
 PROP = C10()
